@@ -6,9 +6,10 @@ sys.path.insert(0, VERIF)
 import props
 
 ALL = ["C%02d" % i for i in range(1, 21)]
+READY = set(open(os.path.join(VERIF, "props.d", "READY")).read().split())
 checks = []
 for pid in ALL:
-    if pid not in props.PROPS:
+    if pid not in props.PROPS or pid not in READY:
         continue
     s = props.PROPS[pid]
     checks.append({
@@ -23,7 +24,7 @@ for pid in ALL:
         "technique": s["technique"],
     })
 na = [{"property_id": pid, "reason": props.NOT_APPLICABLE.get(pid, "check not built yet in this revision; not claimed")}
-      for pid in ALL if pid not in props.PROPS]
+      for pid in ALL if pid not in props.PROPS or pid not in READY]
 m = {
     "version": 1,
     "setup_cmd": "./check setup",
